@@ -10,6 +10,7 @@ import (
 
 	"github.com/benoitkugler/webrender/css/counters"
 	pr "github.com/benoitkugler/webrender/css/properties"
+	"github.com/benoitkugler/webrender/html/boxes"
 
 	"verif/harness/internal/drv"
 )
@@ -32,14 +33,22 @@ type csDef struct {
 	Neg   string  `json:"neg"`
 	Fb    string  `json:"fb"`
 	Ext   string  `json:"ext"`
+	Mb    bool    `json:"mb"`
 }
 
 type csScn struct {
 	Defs map[string]csDef `json:"defs"`
 	V    int              `json:"v"`
-	Want []string         `json:"want"`
-	Via  string           `json:"via"`
+	Want  []string         `json:"want"`
+	Via   string           `json:"via"`
+	Style string           `json:"style"`
 }
+
+// symbols the specification names symbolically
+var csNamed = map[string]string{"BULLET": "•", "CJK0": "〇", "CJK1": "一", "CJK2": "二", "CJK3": "三", "CJK4": "四", "CJK5": "五", "CJK6": "六", "CJK7": "七", "CJK8": "八", "CJK9": "九"}
+
+// two-byte spellings of the symbols a b c (multi-byte variant of a style)
+var csMb = map[string]string{"a": "é", "b": "ü", "c": "ö"}
 
 var csSyms = map[string][]string{"x": {"a", "b", "c"}, "y": {"p", "q", "r"}}
 var csTuples = map[int]string{1: "5 V, 1 I", 2: "5 V, 1 I, 0 N", 3: "3 T, 2 D", 4: "1 I"}
@@ -65,7 +74,13 @@ func csRule(name string, d csDef) string {
 	if d.Sys == "additive" {
 		b.WriteString("additive-symbols: " + csTuples[d.Add] + "; ")
 	} else if d.Sys != "extends" {
-		b.WriteString("symbols: " + strings.Join(csSyms[name][:d.N], " ") + "; ")
+		syms := append([]string(nil), csSyms[name][:d.N]...)
+		if d.Mb {
+			for i, x := range syms {
+				syms[i] = csMb[x]
+			}
+		}
+		b.WriteString("symbols: " + strings.Join(syms, " ") + "; ")
 	}
 	if !d.Rng.Auto {
 		b.WriteString(fmt.Sprintf("range: %d %d; ", d.Rng.Lo, d.Rng.Hi))
@@ -89,6 +104,12 @@ func csRule(name string, d csDef) string {
 func csKey(s *csScn) string {
 	d := s.Defs["x"]
 	k := d.Sys
+	if s.Style != "" && s.Style != "x" {
+		k = "predefined:" + s.Style
+	}
+	if d.Mb {
+		k += ":multibyte-symbols"
+	}
 	if d.Sys == "additive" {
 		k += fmt.Sprintf("(%s)", csTuples[d.Add])
 	}
@@ -124,20 +145,176 @@ func c19StyleMain(args []string) int {
 			out.Fatal("styles: " + err.Error())
 			return
 		}
+		mb := s.Defs["x"].Mb
+		for i, x := range s.Want {
+			if n, ok := csNamed[x]; ok {
+				s.Want[i] = n
+			} else if mb && csMb[x] != "" && s.Via == "x" {
+				s.Want[i] = csMb[x]
+			}
+		}
 		want := strings.Join(s.Want, "")
+		name := s.Style
+		if name == "" {
+			name = "x"
+		}
 		out.Sample(map[string]interface{}{"css": css, "value": s.V, "want": want})
 		if s.Via != "decimal" {
 			out.Count("nontrivial")
 		}
-		got := cs.RenderValue(s.V, "x")
+		got := cs.RenderValue(s.V, name)
 		if got != want {
 			out.Disagree("render:"+csKey(&s), fmt.Sprintf("value %d in %s-> RenderValue gives %q, Counter Styles requires %q (via %s)", s.V, strings.TrimSpace(css), got, want, s.Via),
 				map[string]interface{}{"css": css, "value": s.V, "want": want, "got": got, "scenario": json.RawMessage(line)})
 			return
 		}
-		if g2 := cs.RenderValueStyle(s.V, pr.CounterStyleID{Name: "x"}); g2 != want {
+		if g2 := cs.RenderValueStyle(s.V, pr.CounterStyleID{Name: name}); g2 != want {
 			out.Disagree("render-style:"+csKey(&s), fmt.Sprintf("RenderValueStyle gives %q, expected %q", g2, want), map[string]interface{}{"css": css, "value": s.V})
 			return
+		}
+	})
+}
+
+// ---------------------------------------------------------------- counter scopes (CounterScopes.tla)
+
+func init() { commands["c19scope"] = c19ScopeMain }
+
+type scNV struct {
+	N string `json:"n"`
+	V int    `json:"v"`
+}
+
+type scOp struct {
+	R  []scNV `json:"r"`
+	S  []scNV `json:"s"`
+	I  []scNV `json:"i"`
+	Li bool   `json:"li"`
+}
+
+type scScn struct {
+	Dep  []int              `json:"dep"`
+	Ops  []scOp             `json:"ops"`
+	Want []map[string][]int `json:"want"`
+}
+
+func scDecl(prop string, xs []scNV) string {
+	if len(xs) == 0 {
+		return ""
+	}
+	var parts []string
+	for _, x := range xs {
+		n := x.N
+		if n == "l" {
+			n = "list-item"
+		}
+		parts = append(parts, fmt.Sprintf("%s %d", n, x.V))
+	}
+	if len(parts) == 0 {
+		return ""
+	}
+	return prop + ":" + strings.Join(parts, " ") + ";"
+}
+
+func scJoin(v []int) string {
+	if len(v) == 0 {
+		return "0"
+	}
+	var parts []string
+	for _, x := range v {
+		parts = append(parts, fmt.Sprint(x))
+	}
+	return strings.Join(parts, ".")
+}
+
+func scKey(s *scScn, node int) string {
+	o := s.Ops[node]
+	var ks []string
+	if len(o.R) > 0 {
+		ks = append(ks, "reset")
+	}
+	if len(o.S) > 0 {
+		ks = append(ks, "set")
+	}
+	if len(o.I) > 0 {
+		ks = append(ks, "increment")
+	}
+	if len(ks) == 0 {
+		ks = append(ks, "no-op")
+	}
+	return strings.Join(ks, "+")
+}
+
+func c19ScopeMain(args []string) int {
+	return drv.Main("c19scope", args, func(fs *flag.FlagSet) {}, func(line []byte, out *drv.Out) {
+		var s scScn
+		if err := json.Unmarshal(line, &s); err != nil {
+			out.Fatal("bad scenario: " + err.Error())
+			return
+		}
+		var b strings.Builder
+		b.WriteString(`<html><head><style>@page{size:500px 5000px;margin:0} html,body,div{display:block;margin:0} div::before{content: counters(c, ".") "|" counters(d, ".") ";"}</style></head><body>`)
+		depth := -1
+		for i, d := range s.Dep {
+			for ; depth >= d; depth-- {
+				b.WriteString("</div>")
+			}
+			o := s.Ops[i]
+			incr := o.I
+			extra := ""
+			if o.Li {
+				// the increment of list-item is implicit: the element is a list item and declares no counter-increment
+				extra = "display:list-item;list-style:decimal inside;"
+				var rest []scNV
+				for _, x := range incr {
+					if x.N != "l" {
+						rest = append(rest, x)
+					}
+				}
+				if len(rest) > 0 {
+					out.Fatal("list item with an explicit increment is not materialisable")
+					return
+				}
+				incr = nil
+			}
+			b.WriteString(`<div style="` + extra + scDecl("counter-reset", o.R) + scDecl("counter-set", o.S) + scDecl("counter-increment", incr) + `">`)
+			depth = d
+		}
+		for ; depth >= 0; depth-- {
+			b.WriteString("</div>")
+		}
+		b.WriteString("</body></html>")
+		pages, err := drv.Layout(b.String(), &drv.Opts{})
+		if err != nil {
+			out.Fatal("layout: " + err.Error())
+			return
+		}
+		var text strings.Builder
+		for _, p := range pages {
+			drv.Walk(p, func(bx boxes.Box, _ int) bool {
+				if t, ok := bx.(*boxes.TextBox); ok {
+					text.WriteString(t.TextS())
+				}
+				return true
+			})
+		}
+		got := strings.Split(strings.TrimSuffix(text.String(), ";"), ";")
+		out.Sample(map[string]interface{}{"html": b.String(), "text": text.String()})
+		out.Count("nontrivial")
+		if len(got) != len(s.Dep) {
+			out.Disagree("scope:marker-count", fmt.Sprintf("expected %d generated texts, got %q", len(s.Dep), text.String()), map[string]interface{}{"html": b.String(), "scenario": json.RawMessage(line)})
+			return
+		}
+		for i := range s.Dep {
+			want := scJoin(s.Want[i]["c"]) + "|" + scJoin(s.Want[i]["d"])
+			if s.Ops[i].Li {
+				l := s.Want[i]["l"]
+				want = fmt.Sprintf("%d. ", l[len(l)-1]) + want
+			}
+			if got[i] != want {
+				out.Disagree("scope:"+scKey(&s, i), fmt.Sprintf("element %d of %s shows counters %q, CSS requires %q", i+1, b.String()[strings.Index(b.String(), "<body>"):], got[i], want),
+					map[string]interface{}{"html": b.String(), "element": i + 1, "got": got[i], "want": want, "scenario": json.RawMessage(line)})
+				return
+			}
 		}
 	})
 }
